@@ -365,6 +365,8 @@ val find_skip : z -> rstep list -> nat -> nat option
 
 val exec_script : z -> rstep list -> exec_result
 
+val before_stop : rstep list -> rstep list
+
 val produced : rstep list -> nat option -> rstep list
 
 val exec_script2 : z -> rstep list -> nat option -> exec_result
@@ -1286,9 +1288,11 @@ type dsearch =
 
 val parse_divider : n list -> dsearch
 
-val iterate : n list list -> n list -> n -> (n list * z) list option
+val parse_salted : n list -> n list -> dsearch
 
-val split_outputs : n list -> (n list * z) list option
+val iterate : n list -> n list list -> n list -> n -> (n list * z) list option
+
+val split_outputs : n list -> n list -> (n list * z) list option
 
 val divider_line : n list -> n -> z -> n list
 
@@ -1531,6 +1535,10 @@ val cleanup : n list -> n list
 val take_digits : n list -> n list * n list
 
 val quantifier_body : n list -> (n list * n list) option
+
+val takes_braces : n -> bool
+
+val split_close : n list -> (n list * n list) option
 
 val is_quantifier_start : n list -> bool
 
